@@ -350,7 +350,7 @@ func runC08(p *load.Program, r *core.Report) {
 
 	// ---- S4
 	rule4 := "C08.S4 shutdown-bookkeeping"
-	r.Floor(rule4, 6)
+	r.Floor(rule4, 12)
 	for _, f := range machines {
 		fn := fname(f)
 		// sites that enter shutdown: store true into field shutdown, or store 3 into field mode
